@@ -8,7 +8,9 @@ CONSTANTS MonthDays,    \* set of <<m, d>>
           RefDaysFor(_),\* reference day ordinals to use for a given <<m, d>>
           WeekRefDays,  \* reference days for weekday names
           RefTimes,
-          Layouts
+          Layouts,
+          OtherCultures, \* cultures other than en-us in which the same two-candidate rule is exercised
+          OtherMonthDays \* the <<m, d>> used for them
 
 Occurrences(m, d, y0, y1) == { Ordinal(y, m, d) : y \in { yy \in y0..y1 : d <= DaysInMonth(yy, m) } }
 MaxOf(S) == CHOOSE x \in S : \A z \in S : z <= x
@@ -21,26 +23,34 @@ MdText(l, m, d) == CASE l = 1 -> MonthNameEn[m] \o " " \o ToString(d)
                      [] l = 3 -> MonthAbbrEn[m] \o " " \o ToString(d)
                      [] l = 4 -> MonthNameEn[m] \o " " \o DayOrd(d)
 
-MdCase(l, m, d, n, t) ==
-  LET text == MdText(l, m, d)
-      timex == "XXXX-" \o Pad2(m) \o "-" \o Pad2(d)
-  IN [prop |-> "C09", culture |-> "en-us", ref |-> RefStr(n, t[1], t[2], t[3]), text |-> text, s |-> 0, e |-> Len(text) - 1,
+(* day and month name in the culture's idiom, no year *)
+OtherMdText(cul, m, d) == CASE cul = "zh-cn" -> ToString(m) \o "{6708}" \o ToString(d) \o "{65e5}"
+                            [] cul \in {"es-es", "es-mx", "pt-br"} -> ToString(d) \o " de " \o MonthName(cul)[m]
+                            [] cul = "de-de" -> ToString(d) \o ". " \o MonthName(cul)[m]
+                            [] OTHER -> ToString(d) \o " " \o MonthName(cul)[m]
+
+MdCaseC(cul, text, m, d, n, t) ==
+  LET timex == "XXXX-" \o Pad2(m) \o "-" \o Pad2(d)
+  IN [prop |-> "C09", culture |-> cul, ref |-> RefStr(n, t[1], t[2], t[3]), text |-> text, s |-> 0, e |-> CpLen(text) - 1,
       type |-> "date", ordered |-> TRUE, kind |-> "monthday",
       rel |-> (IF FromOrdinal(n)[2] = m /\ FromOrdinal(n)[3] = d THEN "ref-is-that-day" ELSE "other"),
       tod |-> (IF t = <<0, 0, 0>> THEN "midnight" ELSE "later"),
       vals |-> <<V1(timex, "date", OrdStr(PastOcc(m, d, n))), V1(timex, "date", OrdStr(FutureOcc(m, d, n)))>>]
+MdCase(l, m, d, n, t) == MdCaseC("en-us", MdText(l, m, d), m, d, n, t)
 
-WdCase(w, n, t) ==
-  LET text == WeekdayEn[w]
-      timex == "XXXX-WXX-" \o ToString(w)
+WdCaseC(cul, text, w, n, t) ==
+  LET timex == "XXXX-WXX-" \o ToString(w)
       past == CHOOSE x \in (n - 7)..(n - 1) : IsoWeekday(x) = w
       fut == CHOOSE x \in n..(n + 6) : IsoWeekday(x) = w
-  IN [prop |-> "C09", culture |-> "en-us", ref |-> RefStr(n, t[1], t[2], t[3]), text |-> text, s |-> 0, e |-> Len(text) - 1,
+  IN [prop |-> "C09", culture |-> cul, ref |-> RefStr(n, t[1], t[2], t[3]), text |-> text, s |-> 0, e |-> CpLen(text) - 1,
       type |-> "date", ordered |-> TRUE, kind |-> "weekday",
       rel |-> (IF IsoWeekday(n) = w THEN "ref-is-that-day" ELSE "other"),
       tod |-> (IF t = <<0, 0, 0>> THEN "midnight" ELSE "later"),
       vals |-> <<V1(timex, "date", OrdStr(past)), V1(timex, "date", OrdStr(fut))>>]
+WdCase(w, n, t) == WdCaseC("en-us", WeekdayEn[w], w, n, t)
 
 Cases == UNION { { MdCase(l, md[1], md[2], n, t) : l \in Layouts, n \in RefDaysFor(md), t \in RefTimes } : md \in MonthDays }
          \cup { WdCase(w, n, t) : w \in 1..7, n \in WeekRefDays, t \in RefTimes }
+         \cup UNION { { MdCaseC(cul, OtherMdText(cul, md[1], md[2]), md[1], md[2], n, t) : cul \in OtherCultures, n \in RefDaysFor(md), t \in RefTimes } : md \in OtherMonthDays }
+         \cup { WdCaseC(cul, WeekdayName(cul)[w], w, n, t) : cul \in OtherCultures, w \in 1..7, n \in WeekRefDays, t \in RefTimes }
 =============================================================================
